@@ -6,6 +6,7 @@ WT=/tmp/wt/verify
 [ -d $WT ] || git -C /repo worktree add -q --detach $WT HEAD
 git -C $WT checkout -q -- . ; git -C $WT apply /verif/seeded/$m/patch.diff || exit 3
 for p in "$@"; do
-  (cd /verif && VERIF_REPO=$WT VERIF_OUT=/tmp/wt/outx VERIF_SKIP_BUILD=1 ./check $p ${TIER:-quick} 2>&1 | grep -E "VIOLATION|^OK|INFRA" | cut -c1-260 | head -${NL:-3})
+  SKIP=1; [ "$p" = "C20" ] && SKIP=0     # C20 re-generates and re-proves its facts: never skip the build
+  (cd /verif && VERIF_REPO=$WT VERIF_OUT=/tmp/wt/outx VERIF_SKIP_BUILD=$SKIP ./check $p ${TIER:-quick} 2>&1 | grep -E "VIOLATION|^OK|INFRA" | cut -c1-260 | head -${NL:-3})
 done
 git -C $WT checkout -q -- .
